@@ -36,7 +36,12 @@ try:
     rc1, o1 = demo()
     res["demo_with_change"] = rc1
     res["demo_output_with_change"] = o1
-    b = subprocess.run(["/venv/bin/python", "/verif/tools/baseline.py", wt], capture_output=True, text=True, env=dict(os.environ, BASELINE_SHOW="3"))
+    FLAKY = ("test_mitre_attack_cached_data_used_without_url", "test_mitre_d3fend_cached_data_used_without_url")  # fail when suites run concurrently
+    for attempt in range(3):
+        b = subprocess.run(["/venv/bin/python", "/verif/tools/baseline.py", wt], capture_output=True, text=True, env=dict(os.environ, BASELINE_SHOW="5"))
+        miss = [l for l in b.stdout.splitlines() if "NOT PASSING" in l]
+        if b.returncode == 0 or not all(any(f in l for f in FLAKY) for l in miss):
+            break
     res["suite"] = b.stdout.strip().splitlines()
     res["suite_passes"] = b.returncode == 0
     res["confirmed"] = bool(rc0 == 0 and rc1 != 0 and b.returncode == 0 and ap.returncode == 0)
